@@ -155,9 +155,9 @@ def run_shard(shard):
     part = engine.Part()
     w = engine.worker("fast")
     places = PLACES if depth <= 3 else PLACES[:2]
-    if len(leaves) > 8 and engine.tier() != "thorough":
-        # the sweep over all 20 atom spellings: one placement of each kind in the quick tier
-        places = ("guard", "invariant", "invariant-urgent", "guard-into-branchpoint", "guard-as-cdata")
+    if depth == 3 and engine.tier() != "thorough":
+        # quick: the depth-3 enumeration on one placement of each kind; all placements get the depth-2 sweep over the 20 atom spellings
+        places = ("guard", "invariant", "invariant-urgent", "invariant-second-template", "guard-into-branchpoint", "guard-as-cdata")
     for place in places:
         docs = [model(place, it[0]) for it in items]
         res = xmlgen.run_docs(w, docs, want=["noinv"], batch=200)
